@@ -2,12 +2,15 @@
 EXTENDS SmtpSession, TLC
 CONSTANTS MaxLevel, Deep
 \* recipient 1 is plain; recipient 2 carries the configured peculiarity
-Cfgs == { [esmtp |-> e, mk |-> <<FALSE, k>>, eom |-> <<a, b>>, picky |-> <<FALSE, p>>] :
-            e \in BOOLEAN, k \in BOOLEAN, p \in BOOLEAN, a \in {"ok", "later"}, b \in {"ok", "fail", "later"} }
-Pick == { c \in Cfgs : /\ (c.mk[2] => ~c.picky[2] /\ c.eom[2] = "ok")        \* a refusing factory never gets a message
-                       /\ (c.esmtp => ~c.mk[2] /\ ~c.picky[2] /\ c.eom = <<"ok", "fail">>) }
-DeepPick == { c \in Pick : ~c.esmtp /\ ~c.mk[2] /\ c.eom[1] = "later" /\ c.eom[2] # "ok" }
-Init == \E c \in (IF Deep THEN DeepPick ELSE Pick) : InitWith(c)
+Cf(e, k, a, b, p) == [esmtp |-> e, mk |-> <<FALSE, k>>, eom |-> <<a, b>>, picky |-> <<FALSE, p>>]
+WidePick == { Cf(FALSE, FALSE, "ok", "ok", FALSE),      \* everything succeeds at once
+              Cf(TRUE,  FALSE, "ok", "fail", FALSE),    \* ESMTP; recipient 2's eomReceived fails
+              Cf(FALSE, TRUE,  "ok", "ok", FALSE),      \* recipient 2's factory refuses at DATA
+              Cf(FALSE, FALSE, "ok", "ok", TRUE),       \* recipient 2's message refuses a line
+              Cf(FALSE, FALSE, "later", "later", FALSE),\* eomReceived answers later
+              Cf(FALSE, FALSE, "later", "fail", TRUE) }
+DeepPick == { Cf(FALSE, FALSE, "later", "fail", TRUE), Cf(FALSE, FALSE, "later", "later", TRUE) }
+Init == \E c \in (IF Deep THEN DeepPick ELSE WidePick) : InitWith(c)
 
 \* wide: every kind of line, shallow
 WideNext ==
